@@ -1248,3 +1248,18 @@ package iavl
 //@   callsite nodeDB).extractStateChanges [consecutive] arg1 == version - 1 && arg2 == prevRoot && arg3 == root
 //@   callsite param:fn [extracted-before-reported] arg0 == version && nextracts == athead(1, nextracts) + 1
 //@   modifies *
+
+// ---------------------------------------------------------------- mutable_tree.go: SaveChangeSet (C15) — one new version, every
+// pair applied as what it says, and the removal of a key that is not there refuses the whole change set
+// before anything is committed. Control flow and call history only (the callees are opaque here).
+//@ func (*MutableTree).SaveChangeSet(tree, cs) (v, err)
+//@   props C15
+//@   nosafety
+//@   opaquecalls
+//@   requires tree != nil && cs != nil
+//@   loop 1 invariant allok("MutableTree).Remove$", 1) && calls("MutableTree).SaveVersion$") == 0
+//@   callsite MutableTree).Remove$ [delete-pair-removes-its-key] arg0 == tree && pair.Delete && arg1 == pair.Key
+//@   callsite MutableTree).Set$ [write-pair-sets-its-key-and-value] arg0 == tree && !pair.Delete && arg1 == pair.Key && arg2 == pair.Value
+//@   ensures [one-new-version] err == nil ==> calls("MutableTree).SaveVersion$") == 1
+//@   ensures [missing-key-refused-before-commit] !allok("MutableTree).Remove$", 1) ==> err != nil && calls("MutableTree).SaveVersion$") == 0
+//@   modifies *
